@@ -319,18 +319,27 @@ impl GuestMemoryRegion for MockRegion {
 /// A `GuestMemory` whose only own logic is a linear `find_region`; everything else is inherited
 /// from the trait's provided methods. May own a region whose last address is 2^64-1.
 pub struct MockMem {
+    /// storage (= iteration) order; need not be sorted by address
     pub regions: Vec<MockRegion>,
+    /// layout index -> storage index
+    pub index_of: Vec<usize>,
 }
 
 impl MockMem {
     pub fn new(layout: &Layout) -> Self {
-        MockMem {
-            regions: layout
-                .regs
-                .iter()
-                .map(|&(s, l)| MockRegion::new(s, l as usize))
-                .collect(),
+        let order: Vec<usize> = (0..layout.regs.len()).collect();
+        Self::new_ordered(layout, &order)
+    }
+    /// `order[k]` = layout index of the region stored (and iterated) at position k.
+    pub fn new_ordered(layout: &Layout, order: &[usize]) -> Self {
+        let mut index_of = vec![0; layout.regs.len()];
+        let mut regions = Vec::new();
+        for (k, &li) in order.iter().enumerate() {
+            let (s, l) = layout.regs[li];
+            regions.push(MockRegion::new(s, l as usize));
+            index_of[li] = k;
         }
+        MockMem { regions, index_of }
     }
 }
 
@@ -360,7 +369,7 @@ pub trait Subject: GuestMemory {
 
 impl Subject for MockMem {
     fn host(&self, region: usize) -> *mut u8 {
-        self.regions[region].host()
+        self.regions[self.index_of[region]].host()
     }
     fn slack(&self, _region: usize) -> usize {
         MOCK_SLACK
